@@ -14,6 +14,10 @@ __all__ = ['CutoutImage']
 
 def _overlap_slices(large_array_shape, small_array_shape, position,
                     mode='partial'):
+    # astropy compares small_array_shape with a tuple, which is
+    # ambiguous for an ndarray shape (e.g., from as_pair)
+    if not np.isscalar(small_array_shape):
+        small_array_shape = tuple(small_array_shape)
     slc_lg, slc_sm = overlap_slices(large_array_shape, small_array_shape,
                                     position, mode=mode)
 
